@@ -33,34 +33,81 @@ theorem parseU64_fold : ∀ (v : Bytes) (acc : Nat),
       | nil => rfl
       | cons a t ih => simpa using ih
 
-/-- `frame::parse_u64`: at most 19 octets, all digits; the decimal value (an EMPTY string is `0`) -/
+/-- `frame::parse_u64`: 1 to 19 octets, all digits; the decimal value (since the repair of finding N4b an
+    empty string is an error) -/
 theorem parseU64_eq (v : Bytes) :
-    parseU64 v = if v.length > 19 then none
+    parseU64 v = if v.isEmpty then none else if v.length > 19 then none
       else if v.all isDig then some (v.foldl (fun a b => a * 10 + (b - 48)) 0) else none := by
   unfold parseU64
   split
   · rfl
-  · exact parseU64_fold v 0
+  · split
+    · rfl
+    · exact parseU64_fold v 0
 
-/-- on a non-empty value, whatever `parse_u64` accepts is what the reference reads -/
-theorem parseU64_spec (g : List Header) (v : Bytes) (n : Nat) (hv : v ≠ [])
-    (hg : Spec.Http.get g "content-length" = [v]) (hp : parseU64 v = some n) :
-    Spec.Http.contentLength g = some (some n) := by
+/-- whatever `parse_u64` accepts is non-empty, all digits, and its decimal value -/
+theorem parseU64_some (v : Bytes) (n : Nat) (hp : parseU64 v = some n) :
+    v ≠ [] ∧ v.all isDig = true ∧ n = v.foldl (fun a b => a * 10 + (b - 48)) 0 := by
   rw [parseU64_eq] at hp
   split at hp
   · cases hp
-  · split at hp
-    · rename_i hd
-      cases hp
-      unfold Spec.Http.contentLength
-      rw [hg]
-      simp only
-      have : (!v.isEmpty && v.all fun b => decide (48 ≤ b) && decide (b ≤ 57)) = true := by
-        have : v.isEmpty = false := by cases v <;> simp_all
-        rw [this]; exact hd
-      rw [if_pos this]
+  · rename_i he
+    split at hp
     · cases hp
+    · split at hp
+      · rename_i hd
+        cases hp
+        exact ⟨fun e => by subst e; simp at he, hd, rfl⟩
+      · cases hp
 
+/-- whatever `parse_u64` accepts of a single value is what the reference reads -/
+theorem parseU64_spec (g : List Header) (v : Bytes) (n : Nat)
+    (hg : Spec.Http.get g "content-length" = [v]) (hp : parseU64 v = some n) :
+    Spec.Http.contentLength g = some (some n) := by
+  obtain ⟨hne, hd, hn⟩ := parseU64_some v n hp
+  unfold Spec.Http.contentLength
+  rw [hg]
+  simp only
+  have : (!v.isEmpty && v.all fun b => decide (48 ≤ b) && decide (b ≤ 57)) = true := by
+    have : v.isEmpty = false := by cases v <;> simp_all
+    rw [this]; exact hd
+  rw [if_pos this, hn]
+
+/-- the repaired reading of a (possibly repeated) content-length: every value must parse, all to the
+    same number (`HeaderMap::get_all`) -/
+def clOfValues : List Bytes → Option (Option Nat)
+  | [] => none
+  | v :: rest => some (match parseU64 v with
+    | none => none
+    | some cl => if rest.any (fun o => parseU64 o != some cl) then none else some cl)
+
+theorem clOfValues_some (vs : List Bytes) (n : Nat) :
+    clOfValues vs = some (some n) ↔ vs ≠ [] ∧ ∀ v ∈ vs, parseU64 v = some n := by
+  cases vs with
+  | nil => simp [clOfValues]
+  | cons v rest =>
+    unfold clOfValues
+    cases hp : parseU64 v with
+    | none => simp [hp]
+    | some cl =>
+      simp only [Option.some.injEq, ne_eq, reduceCtorEq, not_false_eq_true, List.mem_cons, forall_eq_or_imp, true_and, hp]
+      by_cases ha : rest.any (fun o => parseU64 o != some cl) = true
+      · rw [if_pos ha]
+        simp only [reduceCtorEq, false_iff, not_and]
+        intro e
+        subst e
+        simp only [List.any_eq_true, bne_iff_ne, ne_eq] at ha
+        obtain ⟨o, ho, hne⟩ := ha
+        exact fun hall => hne (hall o ho)
+      · rw [if_neg ha]
+        simp only [Option.some.injEq]
+        constructor
+        · intro e
+          subst e
+          refine ⟨rfl, fun o ho => ?_⟩
+          have ha' : ∀ x ∈ rest, parseU64 x = some cl := by simpa using ha
+          exact ha' o ho
+        · exact fun h => h.1
 
 /-! ### looking a name up in the grouped field map -/
 
@@ -115,12 +162,12 @@ theorem vals_regular (g : List Header) (n : Bytes) (hn : n.head? ≠ some 58) : 
   · simp [e, hn]
   · simp [e]
 
-/-- what `fields.get(CONTENT_LENGTH)` sees in a delivered block: the first `content-length` value of
-    the field list, if any -/
+/-- what `fields.get_all(CONTENT_LENGTH)` sees in a delivered block: all `content-length` values of the
+    field list, in wire order -/
 theorem find_content_length (g : List Header) :
     (match (groupInto [] (regular g)).find? (fun f => f.1 == Http.str "content-length") with
-      | some (_, v :: _) => some v
-      | _ => none) = (Spec.Http.get g "content-length").head? := by
+      | some (_, v :: rest) => v :: rest
+      | _ => []) = Spec.Http.get g "content-length" := by
   have h := lookupF_groupInto (regular g) [] (Http.str "content-length")
   rw [vals_regular g _ (by rw [str_content_length]; decide)] at h
   rw [get_eq_vals, ascii_content_length, ← str_content_length]
@@ -129,7 +176,7 @@ theorem find_content_length (g : List Header) :
   | nil =>
     rw [hv] at h
     simp only [List.find?_nil, Option.map_none, Option.isNone_none, and_self, if_true, Option.map_eq_none_iff] at h
-    rw [h]; rfl
+    rw [h]
   | cons v rest =>
     rw [hv] at h
     simp only [List.find?_nil, Option.map_none, Option.isNone_none, true_and, reduceCtorEq, if_false,
@@ -142,7 +189,6 @@ theorem find_content_length (g : List Header) :
       simp only [Option.map_some, Option.some.injEq] at h
       subst h
       rfl
-
 
 /-! ### what `Recv::recv_headers` stores -/
 
@@ -183,10 +229,10 @@ theorem rhTail_sameCL (s : Streams) (k : Nat) (h : HeadersIn) (i : Bool) : SameC
     | exact (sameCL_modStream s k (fun st => { st with pendingRecv := st.pendingRecv ++ [_] }) (fun _ => ⟨rfl, rfl⟩)).trans
         (sameCL_mw_notifyRecv _ _)
 
-/-- `content-length` as `recv_headers` reads it: the first value, through `parse_u64` -/
+/-- `content-length` as `recv_headers` reads it: all values through `parse_u64`, which must agree -/
 def headCl (h : HeadersIn) : Option (Option Nat) :=
   match h.fields.find? (fun f => f.1 == Http.str "content-length") with
-  | some (_, v :: _) => some (parseU64 v)
+  | some (_, v :: rest) => clOfValues (v :: rest)
   | _ => none
 
 theorem clOf_modStream_self (s : Streams) (k : Nat) (f : Stream → Stream) (hf : ∀ st, (f st).key = st.key)
@@ -224,23 +270,28 @@ theorem rhCl_cl (s : Streams) (k : Nat) (h : HeadersIn) (cl0 : ContentLength) (l
     split at hr
     · rename_i nm v rest hf
       simp only [hf]
+      unfold clOfValues
       split at hr
       · subst hr; cases hres
       · rename_i n hp
         simp only [hp]
-        by_cases hc : (h.eos && decide (n > 0) && statusNot204304 h) = true
-        · rw [if_pos hc] at hr; subst hr; cases hres
-        · rw [if_neg hc] at hr
-          subst hr
-          refine ⟨clOf_modStream_self s k (fun st => { st with contentLength := .remaining n }) (fun _ => rfl) st hst, fun _ => ⟨by simp, fun n' hn' => ?_⟩⟩
-          cases hn'
-          intro ⟨a, b, c⟩
-          apply hc
-          simp only [a, b, c, decide_true, Bool.and_self]
+        by_cases ha : rest.any (fun o => parseU64 o != some n) = true
+        · rw [if_pos ha] at hr; subst hr; cases hres
+        · rw [if_neg ha] at hr
+          simp only [if_neg ha]
+          by_cases hc : (h.eos && decide (n > 0) && statusNot204304 h) = true
+          · rw [if_pos hc] at hr; subst hr; cases hres
+          · rw [if_neg hc] at hr
+            subst hr
+            refine ⟨clOf_modStream_self s k (fun st => { st with contentLength := .remaining n }) (fun _ => rfl) st hst, fun _ => ⟨by simp, fun n' hn' => ?_⟩⟩
+            cases hn'
+            intro ⟨a, b, c⟩
+            apply hc
+            simp only [a, b, c, decide_true, Bool.and_self]
     · rename_i hf
       subst hr
       have : (match h.fields.find? (fun f => f.1 == Http.str "content-length") with
-          | some (_, v :: _) => some (parseU64 v)
+          | some (_, v :: rest) => clOfValues (v :: rest)
           | _ => none) = none := by
         split
         · rename_i nm v rest hf'; exact absurd hf' (hf nm v rest)
@@ -250,7 +301,7 @@ theorem rhCl_cl (s : Streams) (k : Nat) (h : HeadersIn) (cl0 : ContentLength) (l
 
 
 /-- **what an accepted head leaves in `Stream.content_length`** (`cl0` = what was there: `Head` for a
-    response to HEAD): the first `content-length` value through `parse_u64`; and a head with
+    response to HEAD): the number all `content-length` values parse to; and a head with
     END_STREAM is only accepted with content-length 0 (or status 204 / 304) -/
 theorem recvRecvHeaders_cl (s : Streams) (k : Nat) (h : HeadersIn) (cl0 : ContentLength)
     (live : clOf s k = some cl0) (hok : (s.recvRecvHeaders k h).2.isOk = true) :
@@ -277,17 +328,63 @@ theorem recvRecvHeaders_cl (s : Streams) (k : Nat) (h : HeadersIn) (cl0 : Conten
       obtain ⟨t1, t2⟩ := this trivial
       exact ⟨by rw [rhTail_sameCL s2 k h i k]; exact t1, t2⟩
 
-/-- the head of a delivered block reads the FIRST `content-length` value of the field list -/
+/-- the head of a delivered block reads ALL `content-length` values of the field list -/
 theorem headCl_block (blk : HeaderBlock) (g : List Header) (sid : Nat) (eos : Bool)
     (hf : blk.fields = groupInto [] (regular g)) :
-    headCl (Conn.headersIn sid eos blk) = ((Spec.Http.get g "content-length").head?).map parseU64 := by
+    headCl (Conn.headersIn sid eos blk) = clOfValues (Spec.Http.get g "content-length") := by
   unfold headCl
   simp only [Conn.headersIn, hf]
   rw [← find_content_length g]
-  split <;> rfl
+  split
+  · rfl
+  · rfl
 
-/-- **announced = stored**: when the reference reads a content-length `n` off the field list (one
-    value, non-empty, all digits) and the head is accepted, `n` is what the ledger starts from -/
+/-- **announced = stored**: an accepted head (live stream, not a response to HEAD) leaves in the ledger
+    exactly the number that ALL `content-length` values of the field list parse to (untouched when there is
+    none), and END_STREAM on the head only goes with 0 (or status 204 / 304) -/
+theorem accepted_head_content_length_all (s : Streams) (k : Nat) (blk : HeaderBlock) (g : List Header) (sid : Nat)
+    (eos : Bool) (cl0 : ContentLength) (hf : blk.fields = groupInto [] (regular g))
+    (live : clOf s k = some cl0) (hnh : cl0 ≠ .head)
+    (hok : (s.recvRecvHeaders k (Conn.headersIn sid eos blk)).2.isOk = true) :
+    (Spec.Http.get g "content-length" = [] ∧
+      clOf (s.recvRecvHeaders k (Conn.headersIn sid eos blk)).1 k = some cl0) ∨
+    (∃ n, (∀ v ∈ Spec.Http.get g "content-length", parseU64 v = some n) ∧
+      clOf (s.recvRecvHeaders k (Conn.headersIn sid eos blk)).1 k = some (.remaining n) ∧
+      ¬(eos = true ∧ n > 0 ∧ statusNot204304 (Conn.headersIn sid eos blk) = true)) := by
+  obtain ⟨c1, c2⟩ := recvRecvHeaders_cl s k _ cl0 live hok
+  obtain ⟨c3, c4⟩ := c2 hnh
+  rw [if_neg hnh, headCl_block blk g sid eos hf] at c1
+  rw [headCl_block blk g sid eos hf] at c3 c4
+  cases hv : Spec.Http.get g "content-length" with
+  | nil => rw [hv] at c1; exact Or.inl ⟨rfl, c1⟩
+  | cons v rest =>
+    cases hcl : clOfValues (v :: rest) with
+    | none => simp [clOfValues] at hcl
+    | some o =>
+      cases o with
+      | none => rw [hv] at c3; exact absurd hcl c3
+      | some n =>
+        rw [hv, hcl] at c1
+        have := (clOfValues_some (v :: rest) n).mp hcl
+        exact Or.inr ⟨n, this.2, c1, c4 n (by rw [hv]; exact hcl)⟩
+
+/-- **a head whose content-length values do not all parse to one number is refused** (findings N4a, N4b
+    repaired): live stream, not a response to HEAD -/
+theorem bad_content_length_refused (s : Streams) (k : Nat) (blk : HeaderBlock) (g : List Header) (sid : Nat)
+    (eos : Bool) (cl0 : ContentLength) (hf : blk.fields = groupInto [] (regular g))
+    (live : clOf s k = some cl0) (hnh : cl0 ≠ .head)
+    (hbad : Spec.Http.get g "content-length" ≠ [] ∧
+      ¬ ∃ n, ∀ v ∈ Spec.Http.get g "content-length", parseU64 v = some n) :
+    (s.recvRecvHeaders k (Conn.headersIn sid eos blk)).2.isOk = false := by
+  cases hok : (s.recvRecvHeaders k (Conn.headersIn sid eos blk)).2.isOk with
+  | false => rfl
+  | true =>
+    rcases accepted_head_content_length_all s k blk g sid eos cl0 hf live hnh hok with ⟨e, -⟩ | ⟨n, hn, -⟩
+    · exact absurd e hbad.1
+    · exact absurd ⟨n, hn⟩ hbad.2
+
+/-- in the reference's terms: when `Spec.Http.contentLength` reads `n` (one value, non-empty, all digits)
+    and the head is accepted, `n` is what the ledger starts from -/
 theorem accepted_head_content_length (s : Streams) (k : Nat) (blk : HeaderBlock) (g : List Header) (sid : Nat)
     (eos : Bool) (cl0 : ContentLength) (n : Nat) (hf : blk.fields = groupInto [] (regular g))
     (live : clOf s k = some cl0) (hnh : cl0 ≠ .head)
@@ -295,34 +392,36 @@ theorem accepted_head_content_length (s : Streams) (k : Nat) (blk : HeaderBlock)
     (hok : (s.recvRecvHeaders k (Conn.headersIn sid eos blk)).2.isOk = true) :
     clOf (s.recvRecvHeaders k (Conn.headersIn sid eos blk)).1 k = some (.remaining n) ∧
     ¬(eos = true ∧ n > 0 ∧ statusNot204304 (Conn.headersIn sid eos blk) = true) := by
-  obtain ⟨c1, c2⟩ := recvRecvHeaders_cl s k _ cl0 live hok
-  obtain ⟨c3, c4⟩ := c2 hnh
-  rw [if_neg hnh] at c1
-  have hc := headCl_block blk g sid eos hf
-  -- the reference's reading: exactly one value `v`, non-empty, all digits
-  unfold Spec.Http.contentLength at hspec
-  split at hspec
-  · cases hspec
-  · rename_i v hv
+  -- the reference's reading: exactly one value `v`
+  have hone : ∃ v, Spec.Http.get g "content-length" = [v] := by
+    unfold Spec.Http.contentLength at hspec
     split at hspec
-    · rename_i hd
-      rw [hv] at hc
-      simp only [List.head?_cons, Option.map_some] at hc
-      have hne : v ≠ [] := by
-        intro e; subst e; simp at hd
-      cases hp : parseU64 v with
-      | none => rw [hp] at hc; exact absurd hc c3
-      | some n' =>
-        rw [hp] at hc
-        have := parseU64_spec g v n' hne hv hp
-        unfold Spec.Http.contentLength at this
-        rw [hv] at this
-        simp only [hd, if_true, Option.some.injEq] at this hspec
-        have e : n' = n := by rw [← this, hspec]
-        subst e
-        rw [hc] at c1
-        exact ⟨c1, c4 n' hc⟩
     · cases hspec
+    · rename_i v hv; exact ⟨v, hv⟩
+    · cases hspec
+  obtain ⟨v, hv⟩ := hone
+  rcases accepted_head_content_length_all s k blk g sid eos cl0 hf live hnh hok with ⟨e, -⟩ | ⟨n', hn, h1, h2⟩
+  · rw [hv] at e; cases e
+  · have hp := hn v (by rw [hv]; simp)
+    have := parseU64_spec g v n' hv hp
+    rw [hspec] at this
+    have e : n = n' := by simpa using this
+    subst e
+    exact ⟨h1, h2⟩
+
+/-- … and the reference never reads a number the code refuses to read, except beyond 19 digits -/
+theorem spec_content_length_parses (g : List Header) (n : Nat) (v : Bytes) (hv : Spec.Http.get g "content-length" = [v])
+    (hspec : Spec.Http.contentLength g = some (some n)) (hlen : v.length ≤ 19) : parseU64 v = some n := by
+  unfold Spec.Http.contentLength at hspec
+  rw [hv] at hspec
+  simp only at hspec
+  split at hspec
+  · rename_i hd
+    simp only [Bool.and_eq_true, Bool.not_eq_true'] at hd
+    cases hspec
+    rw [parseU64_eq, if_neg (by simp [hd.1]), if_neg (by omega)]
+    have : v.all isDig = true := hd.2
+    rw [if_pos this]
   · cases hspec
 
 end H2V.Lemmas.ConnHttpP
